@@ -20,6 +20,8 @@ sys.path.insert(0, os.path.join(os.environ.get("VERIF_DIR", "/verif"), "corr"))
 def make_psf(kind, fwhm, P=21):
     if kind == "gauss":
         return RR.gaussian_psf(P, fwhm)
+    if kind == "gauss_even":       # an even-sized stamp: its geometric centre lies between pixels
+        return RR.gaussian_psf(16, fwhm)
     x = np.arange(P) - (P - 1) / 2
     X, Y = np.meshgrid(x, x)
     if kind == "moffat":
@@ -36,6 +38,19 @@ def run_agree(c):
     N, p = c["N"], c["params"]
     psf = make_psf(c["psf"], c["fwhm"])
     out = {"oracle": [], "stats": {}}
+    if c["psf"] == "gauss_even":
+        # (the float64 reference convolution assumes odd stamps: for the even stamp only the hybrid-vs-Fourier clause is exercised)
+        out["stats"] = {}
+        peak = None
+        f = REND["fourier"]((N, N), jnp.array(psf.astype(np.float32)))
+        fim = np.asarray(f.render_source(p, "sersic"), np.float64)
+        for m in c.get("ms", [3, 8]):
+            h = REND["hybrid"]((N, N), jnp.array(psf.astype(np.float32)), num_pixel_render=m)
+            d = np.abs(np.asarray(h.render_source(p, "sersic"), np.float64) - fim).max() / fim.max()
+            out["stats"]["hybrid%d_vs_fourier_even_stamp" % m] = float(d)
+            if d > 6e-3:
+                out["oracle"].append("hybrid (num_pixel_render=%d) vs Fourier with a 16x16 PSF stamp: %.3g of the peak (bound 6e-3)" % (m, d))
+        return out
     ref = RR.convolve_centered(RR.pixel_integrate(N, p), psf)
     peak, tot = ref.max(), np.abs(ref).sum()
     ims = {}
